@@ -66,6 +66,22 @@ Theorem C11_label_names : forall names,
 Proof. exact label_names_ok. Qed.
 Print Assumptions C11_label_names.
 
+(* LookupSymbol over histories: the value-symbol cache is a direct-mapped table of
+   (index, string); a slot is a hit only when its index equals the looked-up reference. For
+   EVERY symbol table, every set of name references and EVERY history of lookups on one
+   reader (collisions k, k+1024, k+2048, repeats, out-of-range references) every answer is the
+   table's symbol for that reference. *)
+Theorem C11_lookup_history : forall tbl names h c, sc_ok tbl c ->
+  run_lookups tbl names c h = map tbl h.
+Proof. exact lookup_history_ok. Qed.
+Print Assumptions C11_lookup_history.
+
+(* ... and it is the index test that makes it so: a cache that trusts the slot alone is refuted. *)
+Theorem C11_lookup_history_noidx_refuted :
+  exists tbl h, run_lookups_noidx tbl [] [] h <> map tbl h.
+Proof. exact lookup_history_noidx_refuted. Qed.
+Print Assumptions C11_lookup_history_noidx_refuted.
+
 (* Connection with the check: for all valid inputs the model's answers are the
    specification's, and a case in which the implementation agrees with the model
    (corr_ok) and the full index agrees with the specification passes pred_ok. *)
@@ -105,3 +121,9 @@ Qed.
 Example C11_label_names_nonvacuous :
   label_names [[]; [98]; [98]; [97]; [97]; [99; 100]]%N = [[97]; [98]; [99; 100]]%N.
 Proof. vm_compute. reflexivity. Qed.
+
+Example C11_lookup_history_nonvacuous :
+  let tbl := fun o => if (o =? 5) then Some [97%N] else if (o =? 1029) then Some [98%N] else if (o =? 2053) then Some [99%N] else None in
+  run_lookups tbl [] [] [5; 1029; 2053; 5; 5; 9999] = [Some [97%N]; Some [98%N]; Some [99%N]; Some [97%N]; Some [97%N]; None]
+  /\ sc_ok tbl [].
+Proof. split; [vm_compute; reflexivity|apply sc_ok_nil]. Qed.
